@@ -404,6 +404,7 @@ func rulesRepl(c *Ctx) {
 		tstates = append(tstates, s)
 	}
 	sort.Slice(tstates, func(i, j int) bool { return tstates[i] < tstates[j] })
+	c.cleanupNotLimitedToOneState(tt, fns, terminal)
 	for _, s := range tstates {
 		name := tt.states[s]
 		at := terminal[s]
@@ -1491,4 +1492,71 @@ func (c *Ctx) fetchStepReportsFailures(g *ssa.Function, state string) {
 		}
 	}
 	walk(g, 0)
+}
+
+
+// cleanupNotLimitedToOneState: Q1 clause. Workers give items up in more than one non-terminal state
+// (queued but not yet claimed; claimed and being fetched). A removal from the task table that is
+// only performed when the looked-up state equals ONE non-terminal state leaves the entries given
+// up in the other state behind: they block the enqueue functions and keep the replicator from
+// ever being idle again.
+func (c *Ctx) cleanupNotLimitedToOneState(tt *taskTable, fns []*ssa.Function, terminal map[int64]ssa.Instruction) {
+	nonTerminal := 0
+	for s := range tt.states {
+		if _, t := terminal[s]; !t {
+			nonTerminal++
+		}
+	}
+	fromTable := func(v ssa.Value) bool {
+		for a := range valueAliases(v) {
+			if e, ok := a.(*ssa.Extract); ok {
+				a = e.Tuple
+			}
+			if lk, ok := a.(*ssa.Lookup); ok && tt.isTable(lk.X) {
+				return true
+			}
+		}
+		return false
+	}
+	for _, f := range fns {
+		for _, g := range withClosures(f) {
+			eachInstr(g, func(in ssa.Instruction) {
+				call, ok := in.(ssa.CallInstruction)
+				if !ok {
+					return
+				}
+				b, ok := call.Common().Value.(*ssa.Builtin)
+				if !ok || b.Name() != "delete" || len(call.Common().Args) != 2 || !tt.isTable(call.Common().Args[0]) {
+					return
+				}
+				cons := "tasks[]#removal-not-limited-to-one-non-terminal-state@" + fnKey(g)
+				limited := ""
+				for _, ft := range factsAt(in.Block()) {
+					if ft.Op != token.EQL || ft.X == nil || ft.Y == nil {
+						continue
+					}
+					x, y := ft.X, ft.Y
+					if _, ok := x.(*ssa.Const); ok {
+						x, y = y, x
+					}
+					k, ok := y.(*ssa.Const)
+					if !ok || k.Value == nil || !fromTable(x) {
+						continue
+					}
+					sv := k.Int64()
+					if _, isTerm := terminal[sv]; isTerm {
+						continue
+					}
+					if name, known := tt.states[sv]; known && nonTerminal > 1 {
+						limited = name
+					}
+				}
+				if limited != "" {
+					c.bad("Q1", cons, in.Pos(), fmt.Sprintf("the task entry is removed only when its state is %s, but items are also given up in the other non-terminal state (a worker cancelled while waiting for a slot drops an item that was queued and never claimed): that entry stays in the table, blocks AddHashToQueue/AddEntryToQueue for its hash and keeps the idle test false — later loads of the same head are skipped and never end", limited))
+				} else {
+					c.ok("Q1", cons, in.Pos(), "the removal does not depend on the entry being in one particular non-terminal state")
+				}
+			})
+		}
+	}
 }
